@@ -66,4 +66,17 @@ void vs_tzset(void) {
     if (vs_mutex_lock && vs_mutex_unlock) { vs_mutex_lock(&model_of_libc_tz_lock); tzset(); nr_point(40); vs_mutex_unlock(&model_of_libc_tz_lock); }
     else tzset();
 }
+/* localtime_r() and strftime() run under the same libc lock (strftime() calls tzset() itself, which with TZ unset stats /etc/localtime - a system
+ * call inside the window - on every call; localtime_r() loads the zone data on the first conversion of the process).  Same model: the lock is a
+ * mutex of this file, with one scheduling point inside the window.  These are the RIGHT functions to call - no counter, only the window. */
+#undef vs_point_user
+static void tz_window(long code) { if (vs_point_user) vs_point_user(code); }
+struct tm *vs_localtime_r(const time_t *t, struct tm *r) {
+    if (vs_mutex_lock && vs_mutex_unlock) { vs_mutex_lock(&model_of_libc_tz_lock); struct tm *x = localtime_r(t, r); tz_window(41); vs_mutex_unlock(&model_of_libc_tz_lock); return x; }
+    return localtime_r(t, r);
+}
+size_t vs_strftime(char *s, size_t max, const char *fmt, const struct tm *tm) {
+    if (vs_mutex_lock && vs_mutex_unlock) { vs_mutex_lock(&model_of_libc_tz_lock); size_t n = strftime(s, max, fmt, tm); tz_window(42); vs_mutex_unlock(&model_of_libc_tz_lock); return n; }
+    return strftime(s, max, fmt, tm);
+}
 
